@@ -1,0 +1,99 @@
+//! Coverage probes for the external verification harness.
+//!
+//! Compiled only with `--cfg num_bigint_verif`. The counters never influence
+//! control flow; they only record which internal regimes a run has reached.
+
+use core::sync::atomic::{AtomicU64, Ordering};
+
+macro_rules! probes {
+    ($($name:ident),* $(,)?) => {
+        #[allow(non_camel_case_types, clippy::upper_case_acronyms)]
+        #[derive(Clone, Copy, Debug, PartialEq, Eq)]
+        #[repr(usize)]
+        pub enum Probe { $($name),*, __COUNT }
+        pub const NAMES: &[&str] = &[$(stringify!($name)),*];
+    };
+}
+
+probes!(
+    ADD_ASM_BLOCK,
+    ADD_ASM_CARRY_OUT,
+    ADD_TAIL_WITH_CARRY,
+    ADD_PROPAGATE_HI,
+    ADD_GROW,
+    ADD_SELF_SHORTER,
+    SUB_ASM_BLOCK,
+    SUB_ASM_BORROW_OUT,
+    SUB_TAIL_WITH_BORROW,
+    SUB_PROPAGATE_HI,
+    SUB_REV_LONGER,
+    SUB_REV_LONGER_BORROW,
+    SUB_REV_SAME,
+    MUL_STRIP_LOW_ZEROS,
+    MUL_LONG,
+    MUL_HALF_KARATSUBA,
+    MUL_KARATSUBA,
+    MUL_KARATSUBA_PLUS,
+    MUL_KARATSUBA_MINUS,
+    MUL_TOOM3,
+    MUL_SCALAR_POW2,
+    MUL_MAC_ROW_WORK,
+    DIV_SINGLE_DIGIT,
+    DIV_SHIFT_ZERO,
+    DIV_SHIFT_NONZERO,
+    DIV_KNUTH_STEP,
+    DIV_TOP_DIGIT_EQUAL,
+    DIV_REFINE_ITER,
+    DIV_ADD_BACK,
+    MONTY_MUL,
+    MONTY_CARRY_SUB,
+    MONTY_FINAL_SUB,
+    MONTY_FINAL_REM,
+    MONTY_BASE_PREREDUCE,
+    MODPOW_EVEN,
+    MODPOW_EVEN_ZERO_DIGIT,
+    RADIX_OUT_BITWISE,
+    RADIX_OUT_INEXACT_BITWISE,
+    RADIX_OUT_CHUNKED,
+    RADIX_OUT_BIG_BASE,
+    RADIX_IN_BITWISE,
+    RADIX_IN_INEXACT_BITWISE,
+    RADIX_IN_CHUNKED,
+    FLOAT_STICKY,
+    ROOT_U64_FAST,
+    ROOT_F64_GUESS,
+    ROOT_SCALED_GUESS,
+    ROOT_POW2_GUESS,
+    ROOT_FIX_CLIMB,
+    ROOT_FIX_SATURATE,
+    ROOT_FIX_DESCEND,
+);
+
+pub const COUNT: usize = Probe::__COUNT as usize;
+
+#[allow(clippy::declare_interior_mutable_const)]
+const ZERO: AtomicU64 = AtomicU64::new(0);
+static COUNTERS: [AtomicU64; COUNT] = [ZERO; COUNT];
+
+#[inline]
+pub fn hit(p: Probe) {
+    COUNTERS[p as usize].fetch_add(1, Ordering::Relaxed);
+}
+
+#[inline]
+pub fn add(p: Probe, n: u64) {
+    COUNTERS[p as usize].fetch_add(n, Ordering::Relaxed);
+}
+
+#[inline]
+pub fn get(p: Probe) -> u64 {
+    COUNTERS[p as usize].load(Ordering::Relaxed)
+}
+
+pub fn snapshot() -> [u64; COUNT] {
+    let mut out = [0u64; COUNT];
+    for (o, c) in out.iter_mut().zip(COUNTERS.iter()) {
+        *o = c.load(Ordering::Relaxed);
+    }
+    out
+}
